@@ -1,5 +1,133 @@
-// stub: check for C05 not built yet
+use c05::api::{self, CaseA, CompSpec, Op, Terminal};
+use c05::forms::{self, CaseB};
+use vcore::proptest::prelude::*;
+
+const RULE: &str = "Domain A (api-sequences): a SpanGuard built by SpanGuard::new with a generated filter verdict is held at one fixed erased type and driven by a generated sequence of 0..=10 operations (with_mdl, with_name, with_props, map_props append/prepend, with_completion(k) with custom or emit's default completion, start) followed by a terminal (complete, complete_with(k), drop, drop while unwinding), inside or outside its frame, over a scripted clock (one entry per now() call: small/large/backwards/repeated/unavailable readings) and a counter or unavailable rng. Domain B (macro-forms): 15 fixed call sites compiled with the real macros (span/debug_/info_/warn_/error_span on sync and async fns, guard parameter, ok_lvl/err_lvl/err/panic_lvl, mdl, new_info_span!) against an explicit runtime, with generated verdict, clock, rng and exit path (fallthrough, early return, return Err, ? on Err, tail Err, panic, cancelled future, explicit complete/complete_with/with_completion/rename/early drop/complete-then-panic through the guard, new_span with 0/1/2 starts). Non-trivial = (A) at least 2 builder operations including a with_completion, or a span rejected by the filter, or start called more than once, or drop during unwinding; (B) a rejected span or any exit path other than plain fallthrough.";
+
+fn comp_spec() -> impl Strategy<Value = CompSpec> {
+    (any::<bool>(), prop::option::of(0u8..4), prop::option::of(0u8..4)).prop_map(|(default, lvl, panic_lvl)| CompSpec { default, lvl, panic_lvl })
+}
+
+fn props_spec() -> impl Strategy<Value = Vec<(u8, i8)>> {
+    prop::collection::vec((0u8..6, any::<i8>()), 0..4)
+}
+
+fn clock_script() -> impl Strategy<Value = Vec<Option<u32>>> {
+    let reading = prop_oneof![
+        5 => (0u32..6).prop_map(Some),
+        2 => any::<u32>().prop_map(Some),
+        1 => Just(Some(0u32)),
+        2 => Just(None),
+    ];
+    prop_oneof![
+        // long enough for every now() call of the case
+        4 => prop::collection::vec(reading.clone(), 2..6),
+        // may run out: later readings are unavailable
+        1 => prop::collection::vec(reading, 0..3),
+        // plain monotone clock
+        2 => (0u32..1000, 0u32..1000, 0u32..1000).prop_map(|(a, b, c)| vec![Some(a), Some(a + b), Some(a + b + c), Some(a + b + c + 1)]),
+    ]
+}
+
+fn case_a() -> impl Strategy<Value = CaseA> {
+    let op = prop_oneof![
+        1 => (0u8..5).prop_map(Op::WithMdl),
+        1 => (0u8..6).prop_map(Op::WithName),
+        1 => props_spec().prop_map(Op::WithProps),
+        1 => (0u8..6, any::<i8>()).prop_map(|(k, v)| Op::MapAppend(k, v)),
+        1 => (0u8..6, any::<i8>()).prop_map(|(k, v)| Op::MapPrepend(k, v)),
+        2 => comp_spec().prop_map(Op::WithCompletion),
+        3 => Just(Op::Start),
+    ];
+    let terminal = prop_oneof![
+        2 => Just(Terminal::Complete),
+        2 => comp_spec().prop_map(Terminal::CompleteWith),
+        3 => Just(Terminal::Drop),
+        2 => Just(Terminal::PanicDrop),
+    ];
+    (
+        (prop::bool::weighted(0.65), prop::bool::weighted(0.8), prop::bool::weighted(0.85), any::<u32>()),
+        clock_script(),
+        (comp_spec(), 0u8..6, 0u8..5, props_spec()),
+        prop::collection::vec(op, 0..=10),
+        terminal,
+    )
+        .prop_map(|((verdict, inside_frame, rng_avail, rng_seed), clock, (init_comp, init_name, init_mdl, init_props), ops, terminal)| CaseA {
+            verdict,
+            inside_frame,
+            rng_avail,
+            rng_seed,
+            clock,
+            init_comp,
+            init_name,
+            init_mdl,
+            init_props,
+            ops,
+            terminal,
+        })
+}
+
+fn case_b() -> impl Strategy<Value = CaseB> {
+    (
+        0u8..forms::SITES.len() as u8,
+        any::<u32>(),
+        prop::bool::weighted(0.7),
+        prop::bool::weighted(0.85),
+        any::<u32>(),
+        clock_script(),
+        any::<i32>(),
+    )
+        .prop_map(|(site, exit, verdict, rng_avail, rng_seed, clock, x)| CaseB { site, exit, verdict, rng_avail, rng_seed, clock, x })
+}
+
+fn d2_probe(terminal: Terminal) -> CaseA {
+    let plain = CompSpec { default: false, lvl: None, panic_lvl: None };
+    CaseA {
+        verdict: false,
+        inside_frame: true,
+        rng_avail: true,
+        rng_seed: 1,
+        clock: vec![Some(1), Some(2)],
+        init_comp: plain.clone(),
+        init_name: 0,
+        init_mdl: 0,
+        init_props: vec![],
+        ops: vec![Op::WithCompletion(plain), Op::Start],
+        terminal,
+    }
+}
+
 fn main() {
-    eprintln!("C05: check not built yet");
-    std::process::exit(2);
+    vcore::run(
+        "C05",
+        vcore::Level::Exploration,
+        RULE,
+        &[
+            "the reading 'taken at start' is the one the clock delivered during the first start() call, the reading 'taken at completion' the one delivered during the terminal operation; later start() calls do not restart the span (rustdoc: start only begins an unstarted span)",
+            "when the clock has no reading at completion the extent is expected to be absent (Timer::extent rustdoc); when only the start reading is unavailable, or the Result-aware completions fall back to a point extent, the outcome is don't-care",
+            "levels follow the macro docs and the repository's ui tests: ok -> ok_lvl, else the macro's own level, else none; Err -> err_lvl, else the macro's own level, else error, with err attached; panic -> panic_lvl, else error, with err attached; everything else -> the macro's own level or none",
+            "ids: inside its frame the ambient context (and therefore the emitted span event) carries exactly the trace/span id the span was created with (as shown to the filter); spans completed outside their frame (guard run outside frame.call, cancelled futures) are don't-care for ids",
+            "whether err is attached when a plain span (no ok_lvl/err_lvl/err) wraps a function returning Err is don't-care",
+            "attribute macros on block expressions need unstable rustc features (stmt_expr_attributes / proc_macro_hygiene) and cannot be compiled by the stable toolchain this harness uses; block forms are therefore not among the call sites (they share inject_sync/inject_async with the fn forms)",
+        ],
+        |s| {
+            s.require("A:disabled+with_completion", 5000);
+            s.require("A:panic-drop", 5000);
+            s.require("A:panic-drop-completing", 2000);
+            s.require("A:repeated-start", 5000);
+            s.require("A:clock-backwards", 2000);
+            s.require("A:clock-unavailable", 2000);
+            s.require("B:panic", 1000);
+            s.require("B:disabled", 1000);
+            s.require("B:err-exit", 1000);
+            s.require("B:question-mark", 300);
+            s.require("B:cancelled-future", 300);
+            s.require("B:guard-param", 1000);
+            // a fixed probe for the class of defect D2 (with_completion on a filtered-out guard), so that
+            // the strongest manifestation (an actual completion) is shown whatever the shrinker lands on
+            s.manual("probe-disabled-with_completion", vec![d2_probe(Terminal::Drop), d2_probe(Terminal::Complete), d2_probe(Terminal::PanicDrop)], api::check_api);
+            s.gen("api-sequences", s.n(500_000, 10_000_000), case_a, api::check_api);
+            s.gen("macro-forms", s.n(100_000, 2_000_000), case_b, forms::check_form);
+        },
+    )
 }
